@@ -355,9 +355,20 @@ pub fn gen_stack(rng: &mut Rng, depth: u32) -> Prog {
     }
 }
 
+/// characters of every UTF-8 width and lead-byte class (3 bytes: E2, ED, EF; 4 bytes: F0, F1, F4)
+pub const WIDE_ALPHA: [&str; 6] = ["€", "\u{d7ff}", "\u{ffff}", "😀", "\u{40000}", "\u{10ffff}"];
 pub fn gen_input(rng: &mut Rng, maxlen: u64) -> String {
     let n = rng.range(0, maxlen);
-    (0..n).map(|_| INPUT_ALPHA[rng.weighted(&[5, 4, 2, 1])]).collect()
+    // one input in six also draws from the wide characters
+    let wide = rng.chance(1, 6);
+    (0..n).map(|_| if wide && rng.chance(1, 3) { WIDE_ALPHA[rng.below(6) as usize] } else { INPUT_ALPHA[rng.weighted(&[5, 4, 2, 1])] }).collect()
+}
+/// short inputs made of wide characters next to the ordinary ones (for the exhaustive streams)
+pub fn wide_inputs() -> Vec<String> {
+    let mut out = vec![];
+    for w in WIDE_ALPHA.iter() { for pre in ["", "a", "é"] { for post in ["", "b", "a"] { out.push(format!("{}{}{}", pre, w, post)); } } }
+    out.push("😀€".into()); out.push("€😀a".into()); out.push("\u{10ffff}\u{40000}".into());
+    out
 }
 
 /// all inputs of length <= n over INPUT_ALPHA
